@@ -14,7 +14,7 @@ log entry to the operation).  The one operation the proxies cannot intercept -- 
 bucket that `cache.py` has just created as a plain `{}` -- and weak-reference removals are detected by
 diffing the real dictionaries against a shadow copy before and after every proxied operation.
 """
-import gc, hashlib, inspect, linecache, os, random, sys, threading, time, types, weakref
+import gc, hashlib, inspect, linecache, os, random, sys, threading, time, traceback, types, weakref
 
 FEATS_OK = ('LISTS', 'BUILTIN_FUNCTIONS', 'EQUALITY_OPERATORS', 'ASSERT_STATEMENTS')
 
@@ -100,7 +100,7 @@ TEMPLATES = {
 G = {g}
 def helper(x):
     if x > 2:
-        return x - {c}
+        return x - {c} + probe()
     return x
 def make(k):
     def f(x, d={d}):
@@ -167,6 +167,26 @@ def mk(k):
 }
 
 
+def _probe():
+    """1000 if the nearest enclosing `helper` frame is a converted one (makes `recursive` observable)."""
+    f = sys._getframe(1)
+    while f is not None:
+        n = f.f_code.co_name
+        if n == 'helper' or n == 'ag__helper':
+            return 1000 if n.startswith('ag__') else 0
+        f = f.f_back
+    return 0
+
+
+_PROBE = []
+
+
+def probe_fn():
+    if not _PROBE:
+        _PROBE.append(_malt()[0].experimental.do_not_convert(_probe))
+    return _PROBE[0]
+
+
 class Fn(object):
     """One function object of the pool plus what the oracle needs."""
     __slots__ = ('fn', 'args', 'bound', 'fake', 'label', 'refs')
@@ -209,6 +229,7 @@ class Group(object):
         sys.modules[modname] = mod
         self.modnames.append(modname)
         ns = mod.__dict__
+        ns['probe'] = probe_fn()
         exec(compile(src, path, 'exec'), ns)
         out = []
         kind = self.kind
@@ -337,6 +358,19 @@ class Recorder(object):
 
     # ---- serials
     def code_serial(self, c):
+        if not isinstance(c, types.CodeType):
+            # a cache keyed by something else than the code object: outside the model
+            msg = 'cache key is a %s, not a code object' % type(c).__name__
+            if msg not in self.unexpected:
+                self.unexpected.append(msg)
+            k = ('non-code', id(c))
+            if k not in self.codes:
+                self.ncodes += 1
+                v = self.vals.setdefault(k, len(self.vals) + 1)
+                self.codes[k] = (None, self.ncodes, v)
+                self.code_info[self.ncodes] = v
+                self.fact_keep.append(c)
+            return self.codes[k][1]
         e = self.codes.get(id(c))
         if e is not None and e[0]() is c:
             return e[1]
@@ -407,6 +441,12 @@ class Recorder(object):
         return s
 
     def scan(self, full=False, outer=False):
+        try:
+            return self._scan(full, outer)
+        except Exception:      # noqa  (bookkeeping must never change the program's control flow)
+            return [('unexpected', 'recorder failure: ' + traceback.format_exc()[-300:])]
+
+    def _scan(self, full=False, outer=False):
         """Changes of the real dictionaries not yet reflected in the shadow (not applied).  An entry whose
         weak reference is already dead counts as gone (lookups no longer match it), even if its removal
         callback has not run yet (the cyclic collector clears all weak references first and runs the
@@ -646,17 +686,24 @@ class LoggingLock(object):
     def acquire(self, *a, **k):
         self.rec.maybe_yield()
         r = self.real.acquire(*a, **k)
-        with self.rec.mutex:
-            self.rec.emit(self.rec.scan())
-            self.rec.log('acq', self.rec.t())
+        try:
+            with self.rec.mutex:
+                self.rec.emit(self.rec.scan())
+                self.rec.log('acq', self.rec.t())
+        except Exception:      # noqa  (bookkeeping must never change the program's control flow)
+            self.rec.unexpected.append('recorder failure: ' + traceback.format_exc()[-300:])
         return r
 
     def release(self):
-        self.rec.maybe_yield()
-        with self.rec.mutex:
-            self.rec.emit(self.rec.scan())
-            self.rec.log('rel', self.rec.t())
-        self.real.release()
+        try:
+            self.rec.maybe_yield()
+            with self.rec.mutex:
+                self.rec.emit(self.rec.scan())
+                self.rec.log('rel', self.rec.t())
+        except Exception:      # noqa
+            self.rec.unexpected.append('recorder failure: ' + traceback.format_exc()[-300:])
+        finally:
+            self.real.release()
 
     def __enter__(self):
         self.acquire()
@@ -691,7 +738,8 @@ class Installed(object):
             t = rec.t()
             depth = getattr(rec.tl, 'depth', 0)
             rec.tl.depth = depth + 1
-            opt = _safe_opt(tr.get_caching_key(user_context))
+            # the options actually requested (not get_caching_key's view of them)
+            opt = _safe_opt(getattr(user_context, 'options', None))
             code = getattr(fn, '__code__', None)
             req = {'t': t, 'opt': opt, 'outcome': None}
             with rec.mutex:
@@ -709,7 +757,7 @@ class Installed(object):
             try:
                 res = orig_tf(fn, user_context)
                 req['outcome'] = 'ok'
-                req['result_id'] = id(res[0])
+                req['ret_is_inst'] = (id(res[0]) == req.get('inst_id'))
                 return res
             except BaseException as e:
                 req['outcome'] = 'err:' + type(e).__name__
